@@ -1,7 +1,7 @@
 """Engine `httpw` (C01, C14): the waiter / watch logic of the public HTTP handler (handler/http/server.go).
 
 Scripts (lists of op lines, the first is `new` / `new tmode`) are run on the REAL DrandHandler by the harness
-(harness/cmd/verifh/httpw.go; one child process per script) and on the Lean model (lean/Drand/Driver/HttpW.lean over
+(harness/cmd/verifh/httpw.go; in a child process that is replaced when it dies) and on the Lean model (lean/Drand/Driver/HttpW.lean over
 Drand/Http/Waiters.lean).  The property oracles below look only at the implementation's answers.
 """
 import glob, json, os, subprocess
@@ -473,8 +473,8 @@ def _explore_http(ctx, res, prop, tier):
 
     # correspondence with the model (variant as detected)
     for s in scripts:
-        if oracle(s) is not None and s.meta.get("kind") == "chains-race":
-            continue
+        if oracle(s) is not None:
+            continue    # reported above (known finding or violation); the transcripts cannot agree past that point
         j = diff(s)
         if j is None:
             cov["traces_validated_against_impl"] += 1
@@ -509,7 +509,7 @@ def _samples(cov, scripts):
     for s in scripts:
         if s.meta.get("kind") in ("valid", "timeout") and len(cov["samples"]) < 3:
             cov["samples"].append({"ops": s.ops[:14], "impl": s.impl[:14]})
-    cov["rule"] = ("scripts over the real handler/http DrandHandler with a scripted fake client (one child process per script): a request that starts the watcher, "
+    cov["rule"] = ("scripts over the real handler/http DrandHandler with a scripted fake client (in a supervised child process: a crash is an outcome): a request that starts the watcher, "
                    "a first delivered round, then random blocks — park a request for latest+1 (or a past / future / far-future / 2^64-1 round), deliver the next round, "
                    "deliver skipping 1–3 rounds, deliver a stale round, end a parked request's context, end it while the watcher is held inside its notification loop "
                    "(gate … watch … cancel … ungate), close the stream and re-subscribe (with or without a delivery after it), client Get / Info failures, clock steps, "
